@@ -118,6 +118,11 @@ theorem c19_pinned_crash_unknown_profiler :
       (.map [(.str "executable", .str "x"), (.str "profiler", .map [(.str "vtune", .map [])])]) expOk) {}
       = .crash .notImplementedError := by decide
 
+/-- a data file name that is a directory → IsADirectoryError in `_read_start_time` -/
+theorem c19_pinned_crash_data_file_directory :
+    compileWith false (docWith [(.str "default_data_file", .str "/tmp")] suiteOk executorOk expOk)
+      { unreadable := ["/tmp"] } = .crash .osError := by decide
+
 /-- the full statement is false of the pinned tree -/
 theorem c19_never_crash_pinned_fails : ∃ d cli e, compileWith false d cli = .crash e :=
   ⟨.null, {}, .coreError, c19_pinned_crash_empty_document⟩
